@@ -8,6 +8,10 @@ ROOT = os.path.dirname(os.path.dirname(os.path.abspath(__file__)))
 
 # id -> (engine, category, technique, text, note, design_ref)
 CHECKS = {
+    "C17": dict(engine="enum", category="exploration", design_ref="DESIGN.md section 7 C17",
+        technique="exhaustive pair/triple enumeration over a small closed set of endpoints for the value algebra; bounded-exhaustive input enumeration for the layer-to-flow clause with the header layout as reference",
+        text="All ordered pairs and all triples of 630 endpoints (5 types x 126 address strings incl. lengths 0..3 exhaustively over {0,1,0xff} and lengths 4/6/15/16 with every single-position variation): equality <=> type+bytes, map-key interchangeability, strict total order (irreflexive, asymmetric, total, transitive), FlowFromEndpoints/Endpoints/NewFlow/Reverse identities, FastHash(f)=FastHash(reverse f), type mismatch refused, 17-byte addresses refused. For every decoded Ethernet/IPv4/IPv6/TCP/UDP/UDPLite/SCTP layer in the deviation<=1 input neighbourhoods: the reported flow equals the address bytes of the layer's own header, and the input with those bytes swapped yields the reversed flow with an equal hash.",
+        note="Trusted: the address offsets of the seven standard headers. Other flow-exposing layers (FDDI, LinuxSLL, PPP, RUDP, ...) are only counted, not judged."),
     "C08": dict(engine="enum", category="exploration", design_ref="DESIGN.md section 7 C08",
         technique="exhaustive enumeration: all 2^32 fold inputs; all short byte strings for the sum; per protocol/pseudo-header/payload-length a full sweep of all 65536 values of one 16-bit word through serialization, verification and every single-bit corruption, against an independent exact-arithmetic reference",
         text="FoldChecksum is compared with the arithmetic definition for all 2^32 accumulator values; ComputeChecksum for all byte strings of length <=2 [3] x 5 initial values plus constant fills up to 70000 bytes against an exact 64-bit sum. For IPv4 header (with/without options), TCP (with/without options), UDP, ICMPv4, GRE over IPv4 and TCP, UDP, ICMPv6 over IPv6 x payload lengths {0,1,2,3,4,5,8,9} x all 65536 values of one 16-bit word (so every checksum outcome incl. 0x0000/0xffff occurs): written bytes equal the reference; the decoded packet verifies as valid with Correct = reference; for 258 [thorough 3857] word values per configuration every bit of every covered non-framing byte (incl. pseudo-header addresses and the checksum field) is flipped and verification must report a mismatch with Correct = reference of the corrupted data (UDP: stored 0 = no checksum).",
